@@ -39,12 +39,12 @@ def xmlUnmarshal : Sess :=
   .call "Unmarshal" ["_", "_"] (.ite (.not (.flag .wellFormed)) "" (.ret .err []) (.ret .nil []))
 
 def panosCommitBody : Sess :=
-  panosDoCmd .save (.lit "commit") ;;
-  .ite .err "err != nil" (.ret .keep ["err"]) .skip ;;
-  .ite (.flag .noChanges)
-    "strings.Contains(msg, \"There are no changes to commit\") || strings.Contains(msg, \"The result of this commit would be the same\")"
-    (.ret .nil ["nil"]) .skip ;;
-  .ite (.not (.flag .msgEmpty)) "msg != \"\"" (.ret .err ["_"]) .skip ;;
+  (panosDoCmd .save (.lit "commit") ;;
+   .ite .err "err != nil" (.ret .keep ["err"]) .skip ;;
+   .ite (.flag .noChanges)
+     "strings.Contains(msg, \"There are no changes to commit\") || strings.Contains(msg, \"The result of this commit would be the same\")"
+     (.ret .nil ["nil"]) .skip ;;
+   .ite (.not (.flag .msgEmpty)) "msg != \"\"" (.ret .err ["_"]) .skip) ;;
   xmlUnmarshal ;;
   .ite .err "err != nil" (.ret .keep ["err"]) .skip ;;
   .loopFuel (
@@ -83,13 +83,13 @@ def panosLoadDevice : Sess :=
     .ite .err "!s.checkHA(logLogin)" (.mark .logWarn ;; .ret .err ["_"]) .skip ;;
     .ret .nil ["nil"]) ;;
   .ite .err "err != nil" (.ret .keep ["nil", "err"]) .skip ;;
-  panosHttpPrefixGetLog .read (.lit "get config") ;;
-  .ite .err "err != nil" (.ret .keep ["nil", "err"]) .skip ;;
-  .call "parseResponseConfig" ["_"] (
-    panosParseResponse ;;
-    .ite .err "err != nil" (.ret .keep ["nil", "err"]) .skip ;;
-    .ite (.not (.flag .cfgParses)) "err != nil" (.ret .err ["nil", "err"]) (.ret .nil ["_", "nil"])) ;;
-  .ite .err "err != nil" (.ret .err ["_", "_"]) .skip ;;
+  (panosHttpPrefixGetLog .read (.lit "get config") ;;
+   .ite .err "err != nil" (.ret .keep ["nil", "err"]) .skip ;;
+   .call "parseResponseConfig" ["_"] (
+     panosParseResponse ;;
+     .ite .err "err != nil" (.ret .keep ["nil", "err"]) .skip ;;
+     .ite (.not (.flag .cfgParses)) "err != nil" (.ret .err ["nil", "err"]) (.ret .nil ["_", "nil"])) ;;
+   .ite .err "err != nil" (.ret .err ["_", "_"]) .skip) ;;
   .call "checkDeviceName" ["_"] (.ite (.not (.flag .nameOk)) "" (.ret .err ["_"]) (.ret .nil ["nil"])) ;;
   .assumeBanner ;; .setPlan ;;
   .ret .keep ["_", "err"]
@@ -122,15 +122,15 @@ def jsonUnmarshal : Sess :=
 groups (what the scenarios use). -/
 def nsxLoadDevice : Sess :=
   .call "TryReachableHTTPLogin" ["_", "_"] (
-    .roundTrip .login (.lit "session create") false ;;
-    .ite .err "err != nil" (.mark .logWarn ;; .ret .err ["err"]) .skip ;;
-    .ite .not200 "resp.StatusCode != http.StatusOK" (.mark .logWarn ;; .ret .err ["_"]) .skip ;;
+    (.roundTrip .login (.lit "session create") false ;;
+     .ite .err "err != nil" (.mark .logWarn ;; .ret .err ["err"]) .skip ;;
+     .ite .not200 "resp.StatusCode != http.StatusOK" (.mark .logWarn ;; .ret .err ["_"]) .skip) ;;
     .ret .nil ["nil"]) ;;
   .ite .err "err != nil" (.ret .keep ["nil", "err"]) .skip ;;
-  nsxSendRequest .read (.lit "gateway-policies") ;;
-  .ite .err "err != nil" (.ret .keep ["nil", "err"]) .skip ;;
-  jsonUnmarshal ;;
-  .ite .err "err != nil" (.ret .err ["nil", "_"]) .skip ;;
+  (nsxSendRequest .read (.lit "gateway-policies") ;;
+   .ite .err "err != nil" (.ret .keep ["nil", "err"]) .skip ;;
+   jsonUnmarshal ;;
+   .ite .err "err != nil" (.ret .err ["nil", "_"]) .skip) ;;
   .call "getRawJSON" ["_"] (
     nsxSendRequest .read (.lit "services") ;;
     .ite .err "err != nil" (.ret .keep ["nil", "err"]) .skip ;;
